@@ -94,6 +94,12 @@ def translate(repo):
     C["LOCK_FIELD_DROPPED_LAST"] = 1 if names and names[-1] == "_lock" and "guards" in names and "verifiers" in names and names.index("guards") < names.index("verifiers") else 0
     nw = body_of(inj, "pub fn new() -> Self")
     C["NEW_TAKES_THE_LOCK"] = 1 if re.search(r"let (\w+) = LOCK_FUNCTION\.lock\(\);", nw) and re.search(r"_lock: \w+,", nw) else 0
+    # the guard: one blocking acquisition, the same for injectors and preventers, that ignores poisoning (the model's Acquire step: it blocks
+    # while somebody holds the guard and succeeds as soon as nobody does, whatever happened to earlier holders)
+    lk = body_of(inj, "fn lock(&self) -> MutexGuard<'_, T>").strip()
+    C["LOCK_IS_ONE_BLOCKING_ACQUIRE_IGNORING_POISON"] = 1 if re.match(r"match self\.inner\.lock\(\) \{\s*Ok\((\w+)\) => \1,\s*Err\((\w+)\) => \{?\s*\2\.into_inner\(\)\s*\}?,?\s*\}$", lk) and "try_lock" not in inj else 0
+    pv = body_of(inj, "pub fn prevent() -> Preventer").strip()
+    C["PREVENT_TAKES_THE_SAME_LOCK"] = 1 if re.match(r"let (\w+) = LOCK_FUNCTION\.lock\(\);\s*Preventer \{ _lock: \1 \}$", pv) else 0
     # the gate comes first: the builder entry points (when_called*) touch nothing of the injector (they only build the builder: `lib: self`),
     # and the checked installation calls begin with their test-and-panic (the model's OpRefuse happens in the state before the call)
     def bodies(src, pat):
